@@ -69,6 +69,7 @@ type c20Task struct {
 	term     func() bool
 	readyC   chan struct{}
 	trigger  chan struct{} // fail / return early
+	onCancel func()        // called the moment the task observes the cancellation
 	stopGate chan struct{} // slow stop
 	err      error
 }
@@ -87,6 +88,9 @@ func (t *c20Task) Run(ctx context.Context) error {
 	var err error
 	select {
 	case <-ctx.Done():
+		if t.onCancel != nil {
+			t.onCancel()
+		}
 		t.lg.add("ctx_done_seen %s", t.name)
 		if t.term != nil {
 			t.lg.add("terminate_read_after %s %v", t.name, t.term())
@@ -333,6 +337,23 @@ func c20Run(r *vlib.Run, c *c20Case, dir string) {
 	case "fail+signal":
 		fireFail()
 		fireSig()
+	case "fail>signal":
+		// the failure strictly precedes the signal: a task that observes the
+		// cancellation caused by the failure sends the signal itself, at once - the
+		// signal watcher may still pick it up, but the outcome is the failure's
+		relayed := false
+		for _, st := range sts {
+			if st != failer && st.run == "block" && !relayed {
+				st.onCancel = fireSig
+				relayed = true
+			}
+		}
+		fireFail()
+		if !relayed {
+			c20WaitFor(func() bool { return lg.has("run_exit " + failer.name) }, 2*time.Second)
+			fireSig()
+		}
+		r.Count("failure_strictly_before_signal", 1)
 	case "signal+fail":
 		fireSig()
 		fireFail()
@@ -417,7 +438,7 @@ func c20Run(r *vlib.Run, c *c20Case, dir string) {
 			r.Violation(c.ID, "signal-returns-error", "Serve returned an error after a shutdown signal: "+serveErr.Error(), det())
 			return
 		}
-	case "fail":
+	case "fail", "fail>signal":
 		if serveErr == nil || !strings.Contains(serveErr.Error(), wantErrText) || !strings.Contains(serveErr.Error(), failer.name) {
 			r.Violation(c.ID, "failure-not-reported", fmt.Sprintf("Serve returned %v, want the error of %s", serveErr, failer.name), det())
 			return
@@ -545,6 +566,9 @@ func TestVerifC20(t *testing.T) {
 		return
 	}
 
+	if part == "serve" {
+		c20StartupFailure(r)
+	}
 	// part serve / race: scripted tasks under the real Serve
 	dir, err := os.MkdirTemp("", "verif-c20-")
 	if err != nil {
@@ -556,10 +580,10 @@ func TestVerifC20(t *testing.T) {
 	if part == "race" {
 		n = r.Pick(150, 1000)
 	}
-	stims := []string{"signal", "fail", "fail+signal", "signal+fail"}
+	stims := []string{"signal", "fail", "fail+signal", "signal+fail", "signal", "fail", "fail>signal", "signal+fail"}
 	sigs := []string{"INT", "TERM", "HUP", "INT", "TERM", "HUP", "QUIT", "USR1", "HUP", "USR2", "ALRM", "HUP"} // whatever the daemon is told to listen for: anything but SIGHUP means terminate
 	for i := 0; i < n; i++ {
-		c := &c20Case{ID: fmt.Sprintf("serve/%d", i), Stim: stims[i%4], Sig: sigs[i/4%len(sigs)],
+		c := &c20Case{ID: fmt.Sprintf("serve/%d", i), Stim: stims[i%8], Sig: sigs[i/4%len(sigs)],
 			ErrKind: []string{"plain", "canceled", "deadline", "closed", "eof"}[i/12%5]}
 		k := 1 + rr.Intn(5)
 		for j := 0; j < k; j++ {
@@ -726,4 +750,75 @@ func c20Starved(done <-chan struct{}) string {
 		return fmt.Sprintf("goroutines of the server are runnable (%d, then %d) rather than parked: starved of CPU, not hung", b1, b2)
 	}
 	return ""
+}
+
+// c20StartupFailure: a task fails at once, while the server is still starting
+// its tasks (the signal watcher may not even be running yet), and a terminating
+// signal arrives right after the cancellation the failure caused - sent by a
+// task the moment it observes that cancellation, so the failure strictly
+// precedes the signal.  Whether or not the signal watcher still picks the signal
+// up, serving returns the failure.
+func c20StartupFailure(r *vlib.Run) {
+	rounds := r.Pick(120, 1500)
+	for i := 0; i < rounds; i++ {
+		id := fmt.Sprintf("startup-failure/%d", i)
+		if !r.Mine(id) {
+			continue
+		}
+		r.Begin(id)
+		r.Nontrivial(id)
+		lg := &c20Log{}
+		procs := []int{1, 1, 2, 0}[i%4]
+		idle := []int{0, 8, 64}[i/4%3]
+		sig := []os.Signal{syscall.SIGTERM, os.Interrupt, syscall.SIGHUP}[i%3]
+		sigC := make(chan os.Signal, 1)
+		srv := NewServer(NewContext(log.New(io.Discard, "", 0), nil, system.TestState{}))
+		mk := func(name, run string) *c20Task {
+			return &c20Task{name: name, run: run, stop: "prompt", ready: "now", lg: lg,
+				readyC: make(chan struct{}), trigger: make(chan struct{}), stopGate: make(chan struct{}), err: fmt.Errorf("boom-at-startup")}
+		}
+		failer := mk("failing", "fail")
+		close(failer.trigger) // fails as soon as it runs
+		relay := mk("relay", "block")
+		relay.onCancel = func() { lg.add("signal relayed"); sigC <- sig }
+		tasks := []Task{failer, relay}
+		for k := 0; k < idle; k++ {
+			tasks = append(tasks, mk(fmt.Sprintf("idle%d", k), "block"))
+		}
+		var serveErr error
+		done := make(chan struct{})
+		func() {
+			if procs > 0 {
+				defer runtime.GOMAXPROCS(runtime.GOMAXPROCS(procs))
+			}
+			go func() {
+				serveErr = srv.Serve(sigC, nil, tasks)
+				close(done)
+			}()
+			select {
+			case <-done:
+			case <-time.After(40 * time.Second):
+			}
+		}()
+		select {
+		case <-done:
+		default:
+			if why := c20Starved(done); why != "" {
+				r.Inconclusive(id, "Serve had not returned 40 s after a task failed at startup, but "+why)
+			} else {
+				r.Violation(id, "serve-hung", "Serve had not returned 40 s after a task failed at startup", map[string]any{"log": lg.snapshot()})
+			}
+			continue
+		}
+		picked := len(sigC) == 0 && lg.has("signal relayed")
+		if picked {
+			r.Count("signal_after_failure_picked_up_by_watcher", 1)
+		}
+		if serveErr == nil || !strings.Contains(serveErr.Error(), "boom-at-startup") {
+			r.Violation(id, "failure-not-reported", fmt.Sprintf("a task failed with boom-at-startup before %v arrived, but Serve returned %v (signal picked up by the watcher: %v)", sig, serveErr, picked),
+				map[string]any{"processors": procs, "idle_tasks": idle, "log": lg.snapshot()})
+			continue
+		}
+		r.Count("startup_failures_reported", 1)
+	}
 }
